@@ -9,6 +9,8 @@ from ..mon.tableau import TableauMonitor
 from ..ref import pauli, dense
 from .. import gq
 
+from .. import suite
+
 ID = "C01"
 LEVEL = "exploration"
 RULE = ("random programs over {I,H,P,Pdag,X,Y,Z,wrappers of 1-4 gates,CNOT,CZ,classical CNOT/CZ,Z-measure,measure-CNOT-and-reset} on "
@@ -24,12 +26,22 @@ TIMEOUT = {"quick": 900, "thorough": 7200}
 
 
 def shards(tier, seed):
+    return _own_shards(tier, seed) + suite.shards(tier, seed)
+
+
+def _own_shards(tier, seed):
     n = 16 if tier == "quick" else 48
     return [{"seed": seed, "shard": i, "programs": 45 if tier == "quick" else 700, "nmax": 5 if tier == "quick" else 6,
              "lmax": 30 if tier == "quick" else 60} for i in range(n)]
 
 
 def floors(tier):
+    f = _own_floors(tier)
+    f.update({"suite:tests_run": 40, "suite:compile:runs_judged": 10})
+    return f
+
+
+def _own_floors(tier):
     return {"compile:runs": 3000, "compile:ops_observed": 20000, "backend:StabilizerCompiler": 1000, "backend:DensityMatrixCompiler": 1000,
             "measure:random": 100, "measure:deterministic": 100, "outcome:0": 100, "outcome:1": 100, "shape:gate_after_reset": 20,
             "setting:0": 500, "setting:1": 500, "setting:probabilistic": 500, "initial_state:given": 200, "programs:with_insert_at": 100,
@@ -53,6 +65,13 @@ def gen_program(rng, nmax, lmax):
 
 
 def run_shard(spec, ctx):
+    if spec.get("kind") == "suite":
+        suite.run(ctx, "compile", suite.GROUPS[spec["group"]])
+        return
+    _own_run_shard(spec, ctx)
+
+
+def _own_run_shard(spec, ctx):
     mon = CompileMonitor(ctx.count)
     mon.install()
     state = {"case": None}
@@ -67,6 +86,13 @@ def run_shard(spec, ctx):
 
 
 def replay(case, ctx):
+    if "suite_test" in case:
+        suite.replay(case, ctx)
+        return
+    _own_replay(case, ctx)
+
+
+def _own_replay(case, ctx):
     mon = CompileMonitor(ctx.count)
     mon.install()
     state = {"case": None}
